@@ -87,8 +87,11 @@ def gen_retry() -> str:
     # ---- copy_with_attempts
     mc = _find_class(_parse(M), "Message", M)
     cw = _find_func(mc.body, "copy_with_attempts", M)
-    sets = _assigns(cw, "new_msg.attempts")
-    if [ast.unparse(x) for x in sets] != ["attempts"]:
+    # `<copy> = copy.copy(self); <copy>.attempts = attempts; return <copy>` - whatever the local is called
+    cname = next((ast.unparse(x.targets[0]) for x in ast.walk(cw) if isinstance(x, ast.Assign) and len(x.targets) == 1
+                  and isinstance(x.targets[0], ast.Name) and ast.unparse(x.value) == "copy.copy(self)"), None)
+    sets = _assigns(cw, f"{cname}.attempts") if cname else []
+    if [ast.unparse(x) for x in sets] != ["attempts"] or ast.unparse(cw.body[-1]) != f"return {cname}":
         _fail(M, cw, "copy_with_attempts no longer sets new_msg.attempts = attempts")
     dflt = None
     for s in mc.body:
